@@ -61,6 +61,29 @@ def classify(ctx, sub_a, tpl_a, sub_b, tpl_b, invert, strategy, flags):
     return KF if ua["std"] == ub["std"] else None
 
 
+KF_AROM = "bond-change-at-aromatic-atom-kekulisation"
+
+
+def classify_aromatic(sub_a, tpl_a, sub_b, tpl_b, invert, strategy, flags):
+    """second recorded mechanism: the rule changes a bond at an atom that is aromatic in the substrate.  The glued ITS keeps
+    the ring's 1.5 orders and aromatic flags although the ring is no longer aromatic, so writing the product needs a
+    Kekule assignment that RDKit picks by atom order: both executions build the same number of ITS graphs, but the
+    reaction strings (or whether they can be written at all) differ with the writing of the substrate."""
+    a = RC.run(sub_a, tpl_a, invert, strategy=strategy, flags=flags, want_its=True)
+    b = RC.run(sub_b, tpl_b, invert, strategy=strategy, flags=flags, want_its=True)
+    if "error" in a or "error" in b or len(a["its"]) != len(b["its"]):
+        return None
+
+    def touches_aromatic(g):
+        for u, v, dd in g.edges(data=True):
+            o = dd.get("order")
+            if isinstance(o, tuple) and o[0] != o[1] and (g.nodes[u]["typesGH"][0][1] or g.nodes[v]["typesGH"][0][1]):
+                return True
+        return False
+
+    return KF_AROM if any(touches_aromatic(g) for g in a["its"]) and any(touches_aromatic(g) for g in b["its"]) else None
+
+
 def check_case(ctx, tpl_rsmi, tpl_kind, sub, d, flags, wit, tag, origin):
     from synkit.IO.chem_converter import rsmi_to_its
     from synkit.Graph.ITS.its_decompose import get_rc
@@ -97,6 +120,8 @@ def check_case(ctx, tpl_rsmi, tpl_kind, sub, d, flags, wit, tag, origin):
                 ctx.violation("depends-on-history", {**wit, "job": job, "in_process": sorted(other["std"])[:3], "fresh_process": fresh[:3]},
                               f"the same call gives {len(other['std'])} result(s) after earlier calls in this process but {len(fresh)} in a fresh interpreter")
                 return
+        if finding is None:
+            finding = classify_aromatic(sub, tpl_of(tpl_rsmi), sub_b, tpl_of(tpl_r), invert, strategy, flags)
         lost, gained = sorted(S0 - other["std"]), sorted(other["std"] - S0)
         ctx.violation("depends-on-" + kind, {**wit, "relation": kind, "variant_template": tpl_r, "variant_substrate": sub_b,
                                               "lost": lost[:2], "gained": gained[:2]},
